@@ -22,14 +22,13 @@ Import ListNotations.
 Open Scope Z_scope.
 
 (* tbl[i]; None = index out of range (panic) *)
-Fixpoint znth_pos (l : list Z) (i : Z) (fuel : nat) : option Z :=
-  match l, fuel with
-  | [], _ => None
-  | _, O => None
-  | x :: r, S f => if i =? 0 then Some x else znth_pos r (i - 1) f
+Fixpoint znth_pos (l : list Z) (i : Z) : option Z :=
+  match l with
+  | [] => None
+  | x :: r => if i =? 0 then Some x else znth_pos r (i - 1)
   end.
 Definition znth (l : list Z) (i : Z) : option Z :=
-  if i <? 0 then None else znth_pos l i (length l).
+  if i <? 0 then None else znth_pos l i.
 
 Definition zlen (l : list Z) : Z := Z.of_nat (length l).
 
